@@ -77,3 +77,58 @@ func vrtHarness_C11_seqOps() {
 	_, ok = m.Get(k2)
 	vrtAssert("flush removes everything", vrtAnd(!ok, m.Len() == 0))
 }
+
+// O3: two threads, each doing one operation on one shard (the unit that owns a lock; Map
+// methods only route to a shard, see C11_seqOps).  A get returns nothing or a value that was
+// stored under exactly that key and not removed by an operation that completed before it
+// began; no operation races on memory (race detector on).
+func vrtHarness_C11_conc() {
+	sh := newShard[vrtKey, int](4)
+	m := &sh
+	k0 := vrtKey(vrtU32() & 1)
+	m.set(k0, 10)
+	type obs struct {
+		v  int
+		ok bool
+	}
+	var got [2]obs
+	did := [2]int{vrtChoice(6), vrtChoice(6)}
+	keys := [2]vrtKey{vrtKey(vrtU32() & 1), vrtKey(vrtU32() & 1)}
+	run := func(i int) {
+		switch did[i] {
+		case 0:
+			got[i].v, got[i].ok = m.get(keys[i])
+		case 1:
+			m.set(keys[i], 20+i)
+		case 2:
+			m.del(keys[i])
+		case 3:
+			m.flush()
+		case 4:
+			got[i].v = m.len()
+		case 5:
+			_ = m.rangeDo(func(k vrtKey, v int) (int, bool, bool, error) { return 0, false, v == 10, nil })
+		}
+	}
+	done := make(chan struct{})
+	go func() { run(1); close(done) }()
+	run(0)
+	<-done
+	vrtCover("get ran", did[0] == 0)
+	for i := 0; i < 2; i++ {
+		if did[i] != 0 {
+			continue
+		}
+		o, ok := did[1-i], got[i]
+		if ok.ok {
+			fromInit := vrtAnd(ok.v == 10, keys[i] == k0)
+			fromOther := vrtAnd(o == 1, ok.v == 20+(1-i), keys[1-i] == keys[i])
+			vrtAssert("a lookup returns only a value stored under exactly that key", vrtOr(fromInit, fromOther))
+		} else {
+			never := keys[i] != k0
+			removed := vrtOr(vrtAnd(o == 2, keys[1-i] == keys[i]), o == 3, vrtAnd(o == 5, keys[i] == k0))
+			vrtAssert("a lookup misses only if the key was never stored or was removed", vrtOr(never, removed))
+		}
+	}
+	vrtAssert("size is bounded by what was stored", m.len() <= 2)
+}
